@@ -9,6 +9,7 @@ pub mod c04;
 pub mod c05;
 pub mod c06;
 pub mod c07;
+pub mod c08;
 pub mod c09;
 pub mod c10;
 pub mod c11;
@@ -53,6 +54,7 @@ pub fn subs(id: &str) -> Vec<Box<dyn Sub>> {
         "C05" => c05::subs(),
         "C06" => c06::subs(),
         "C07" => c07::subs(),
+        "C08" => c08::subs(),
         "C09" => c09::subs(),
         "C10" => c10::subs(),
         "C11" => c11::subs(),
